@@ -42,10 +42,10 @@ def cases(draw):
         "base_style": draw(st.sampled_from(BASE_STYLES)),
         "uses_src_global": draw(st.booleans()),
         "src_uses_element": draw(st.booleans()),
-        "dest": draw(st.sampled_from(["dst", "dst", "pkg.sub"])),
+        "dest": draw(st.sampled_from(["dst", "dst", "pkg.sub", "pkg.inner.deep"])),
         "dst_has_imports": draw(st.booleans()),
         "clients": [draw(st.sampled_from(ELEMENT_STYLES)) for _ in range(3)],
-        "leaf_clients": [draw(st.sampled_from(["import_dotted", "from_pkg_import", "from_pkg_import_as", "from_leaf_import", "import_dotted_as", "from_pkg_import_twice"])) for _ in range(2)],
+        "leaf_clients": [draw(st.sampled_from(["import_dotted", "from_pkg_import", "from_pkg_import_as", "from_leaf_import", "import_dotted_as", "from_pkg_import_twice", "dotted_plus_namesake"])) for _ in range(2)],
         "sibling_named_like_dest": draw(st.booleans()),
         "relative_in_pkg": draw(st.booleans()),
         "method_other_module": draw(st.integers(0, 3)) == 0,
@@ -96,6 +96,10 @@ def render(case):
     files["pkg2/__init__.py"] = ""
     files["pkg/leaf.py"] = "def leaf_fn():\n    return 7\nLEAF = 3\n"
     files["pkg/sub.py"] = "def sub_own():\n    return 2\n"
+    files["pkg/inner/__init__.py"] = ""
+    files["pkg/inner/deep.py"] = "def deep_own():\n    return 3\n"
+    files["pkg3/__init__.py"] = ""
+    files["pkg3/leaf.py"] = "OTHER = 44\n"  # a different module with the moving module's base name
     mains = ["import src\nimport dst\nimport pkg.sub\nimport pkg.leaf\nprint(src.other(), dst.dst_own(), pkg.sub.sub_own())\n"]
     if case["src_uses_element"] and not case["uses_src_global"]:
         mains.append("print(src.src_user())\n")
@@ -106,6 +110,9 @@ def render(case):
         u = {"function": "%s(2)" % ref, "class": "%s(2).v" % ref, "variable": ref}[el]
         modname = path[:-3].replace("/", ".")
         files[path] = imp + "def use():\n    return %s\n" % u
+        if path == "c1.py" and case["dest"] == "pkg.inner.deep":
+            # this client already takes something from the destination's top-level package
+            files[path] = "from pkg import sub\n" + imp + "def use():\n    return %s + sub.sub_own() * 0\n" % u
         if path == "pkg/cli.py" and case.get("sibling_named_like_dest") and el != "class":
             # the client in the package also takes a name from its SIBLING pkg/dst.py, relatively: a different module than the
             # top-level dst.py the element may move to
@@ -123,6 +130,8 @@ def render(case):
             body = "from pkg import leaf\ndef use():\n    return leaf.leaf_fn() + leaf.LEAF\n"
         elif style == "from_pkg_import_as":
             body = "from pkg import leaf as lf\ndef use():\n    return lf.leaf_fn() + lf.LEAF\n"
+        elif style == "dotted_plus_namesake":
+            body = "import pkg.leaf\nfrom pkg3 import leaf\ndef use():\n    return pkg.leaf.leaf_fn() + pkg.leaf.LEAF + leaf.OTHER * 0\n"
         elif style == "from_pkg_import_twice":
             # two separate statements bring the module in
             body = "from pkg import sub, leaf\nfrom pkg import leaf as lf2\ndef use():\n    return leaf.leaf_fn() + lf2.LEAF + sub.sub_own()\n"
@@ -157,6 +166,8 @@ def hazards(case):
     a = case["action"]
     if a in ("move_leaf_to_root",) and {"from_pkg_import_as", "from_pkg_import_twice"} & set(case["leaf_clients"]):
         hz.add("from_pkg_import_module_as_alias_left_behind")
+    if a == "move_leaf_to_root" and "dotted_plus_namesake" in case["leaf_clients"]:
+        hz.add("moved_module_name_collides_with_a_name_the_client_binds")
     if a == "move_global" and "from_name_as" in case["clients"]:
         hz.add("aliased_from_import_of_moved_global_left_behind")
     if a == "move_method" and case["method_uses_global"] and case["method_other_module"]:
@@ -194,7 +205,7 @@ def evaluate(case, env):
             if a == "move_global":
                 src = files["src.py"]
                 off = src.index("elem")
-                dest = project.get_file("dst.py" if case["dest"] == "dst" else "pkg/sub.py")
+                dest = project.get_file({"dst": "dst.py", "pkg.sub": "pkg/sub.py", "pkg.inner.deep": "pkg/inner/deep.py"}[case["dest"]])
                 changes = move.create_move(project, project.get_file("src.py"), off).get_changes(dest)
             elif a == "move_module":
                 changes = move.create_move(project, project.get_file("src.py")).get_changes(project.get_folder("pkg"))
